@@ -586,6 +586,10 @@ func (x *Exec) convert(fr *frame, st *State, t *ssa.Convert) Value {
 	case isString(to):
 		// []byte/[]rune/int -> string
 		r := c.Fresh("str", SStr)
+		if fb, ok := x.strOfBytes(st, xv); ok {
+			// string(b) is a function of the bytes of b as they are now
+			r = c.Name("str", fb)
+		}
 		c.strFactsOnce(r, st.pc)
 		if _, ok := from.Underlying().(*types.Slice); ok {
 			if et, ok2 := from.Underlying().(*types.Slice).Elem().Underlying().(*types.Basic); ok2 && et.Kind() == types.Uint8 {
